@@ -54,7 +54,7 @@ static scpi_result_t handler(scpi_t * c) {
     }
     /* handlers of the entries at even table positions fail without reporting an error of their own (-200): dispatch and
      * the header path of the following unit must not depend on whether a handler succeeded */
-    return ((SCPI_CmdTag(c) / 100) % 2 == 0) ? SCPI_RES_ERR : SCPI_RES_OK;
+    return ((SCPI_CmdTag(c) / 100000) % 2 == 0) ? SCPI_RES_ERR : SCPI_RES_OK;
 }
 
 static unsigned long long n_msgs = 0, n_units = 0, n_matched = 0, n_undefined = 0, n_composed = 0, n_shadowed = 0;
@@ -84,8 +84,8 @@ static int ref_message(const int * units, int k, char * exp, size_t expsz, char 
             o += (size_t) snprintf(exp + o, expsz - o, "H%d(%s)i10n%ld,%ld,-7;p", (int) table[hit].tag, eff, nn > 0 ? nums[0] : -7L, nn > 1 ? nums[1] : -7L);
             { int e2, kind; char probe[160]; long tmp2[RP_MAXKW];
               for (e2 = 0; e2 < tab_n; e2++) for (kind = 0; kind < 2; kind++) { int pl = rp_probe(&pool_rp[tab_ids[e2]], kind, probe); o += (size_t) snprintf(exp + o, expsz - o, "%d", rp_match(&pool_rp[tab_ids[hit]], probe, pl, tmp2, -1)); } }
-            o += (size_t) snprintf(exp + o, expsz - o, ";%s", ((table[hit].tag / 100) % 2 == 0) ? "E-200;" : "");
-            if ((table[hit].tag / 100) % 2 == 0) nfail++;
+            o += (size_t) snprintf(exp + o, expsz - o, ";%s", ((table[hit].tag / 100000) % 2 == 0) ? "E-200;" : "");
+            if ((table[hit].tag / 100000) % 2 == 0) nfail++;
             n_matched++;
             if (second >= 0) n_shadowed++;
         } else {
@@ -171,10 +171,34 @@ static void run_table(int K) {
     }
 }
 
+/* a command table of 300 entries C0..C299 (tag = 70000 + index): the first match may lie anywhere in the table, an undefined header
+ * makes the search run to the terminator */
+static scpi_result_t h_big(scpi_t * c) { tr_printf("B%d;", (int) SCPI_CmdTag(c)); return SCPI_RES_OK; }
+static void big_table(void) {
+    static scpi_command_t bt[302];
+    static char names[300][8];
+    static const int probe[] = {0, 1, 17, 127, 128, 129, 254, 255, 256, 257, 258, 299, 300, 511};
+    int i, a, b, np = (int) (sizeof probe / sizeof probe[0]);
+    for (i = 0; i < 300; i++) { sprintf(names[i], "C%d", i); bt[i].pattern = names[i]; bt[i].callback = h_big; bt[i].tag = 70000 + i; }
+    bt[300].pattern = NULL; bt[300].callback = NULL; bt[300].tag = 0;
+    for (a = 0; a < np; a++) for (b = -1; b < np; b++) {
+        char msg[64], exp[64]; int ml, el = 0;
+        if (!MC_CASE()) continue;
+        ml = b < 0 ? sprintf(msg, "C%d\n", probe[a]) : sprintf(msg, "c%d;:C%d\n", probe[a], probe[b]);
+        el += probe[a] < 300 ? sprintf(exp + el, "B%d;", 70000 + probe[a]) : sprintf(exp + el, "E-113;");
+        if (b >= 0) el += probe[b] < 300 ? sprintf(exp + el, "B%d;", 70000 + probe[b]) : sprintf(exp + el, "E-113;");
+        mc_case_tag = "big-table"; mc_case_s[0] = (const unsigned char *) msg; mc_case_n[0] = (size_t) ml;
+        tc_reinit(&T, bt); tr_reset();
+        SCPI_Input(&T.ctx, msg, ml);
+        n_msgs++;
+        if (strcmp(TR, exp)) mc_viol("c02/big-table", "table C0..C299, message [%s]: trace [%s], reference [%s]", mc_e(msg, (size_t) ml), mc_es(TR), exp);
+    }
+}
+
 static void set_table(const int * ids, int n) {
     int i;
     tab_n = n;
-    for (i = 0; i < n; i++) { tab_ids[i] = ids[i]; table[i].pattern = pool[ids[i]]; table[i].callback = handler; table[i].tag = 100 * (i + 1) + ids[i]; }
+    for (i = 0; i < n; i++) { tab_ids[i] = ids[i]; table[i].pattern = pool[ids[i]]; table[i].callback = handler; table[i].tag = 100000 * (i + 1) + ids[i];       /* beyond 16 bits */ }
     table[n].pattern = NULL; table[n].callback = NULL; table[n].tag = 0;
 }
 
@@ -202,6 +226,7 @@ int main(int argc, char ** argv) {
         for (a = 0; a < npool; a++) ids[a] = npool - 1 - a;
         set_table(ids, npool); run_table(K); ntab++;
     }
+    big_table();
     if (mc_shard == 0) {
         mc_sample("table {AAAA[:Dd]:Ee, AAAA:Ee} message [AAAA:Bb;Ee;*XY;Ee\\n] -> H(AAAA:Bb) H(AAAA:Ee) by the FIRST entry, H(*XY), -113 for Ee");
         mc_sample("table {AAAA:Cc#, Bb} message [aaaa:BB? ; ZZ ; Cc1\\n]");
